@@ -294,9 +294,12 @@ def shrink_core(exe, workdir, sres, pid, case, cfg):
     spec_ids = set(cfg.get("spec_ids", [pid]))
     fields = re.compile(cfg.get("diff_fields_by_stream", {}).get("core", cfg.get("diff_fields", r".*")))
 
-    def shows(k):
-        trace = os.path.join(workdir, f"shrink.{case}.{k}.trace")
+    def shows(k, drop=()):
+        tag = hashlib.md5(",".join(map(str, drop)).encode()).hexdigest()[:8] if drop else "p"
+        trace = os.path.join(workdir, f"shrink.{case}.{k}.{tag}.trace")
         cmd = [exe, "core", "-seed", str(sres["seed"]), "-out", trace, "-only", str(case), "-maxops", str(k)] + list(sres["args"])
+        if drop:
+            cmd += ["-dropops", ",".join(map(str, drop))]
         try:
             rc, _ = sh(cmd, timeout=120)
             with open(trace) as f:
@@ -332,6 +335,30 @@ def shrink_core(exe, workdir, sres, pid, case, cfg):
             hi, best = mid, (mid, tr)
         else:
             lo = mid + 1
+    # delta debugging on the operations of the shortest failing prefix: every operation draws from its
+    # own PRNG, so leaving operations out does not change the random choices of the others
+    kmax = best[0]
+    keep = list(range(kmax))
+    n, trials, budget = 2, 0, 48
+    while len(keep) >= 2 and trials < budget:
+        chunk = max(1, len(keep) // n)
+        removed = False
+        for i in range(0, len(keep), chunk):
+            cand = keep[:i] + keep[i + chunk:]
+            drop = sorted(set(range(kmax)) - set(cand))
+            trials += 1
+            ok, tr = shows(kmax, drop)
+            if ok:
+                keep, best = cand, (kmax, tr, drop)
+                n = max(n - 1, 2)
+                removed = True
+                break
+            if trials >= budget:
+                break
+        if not removed:
+            if chunk == 1:
+                break
+            n = min(len(keep), n * 2)
     return best
 
 
@@ -347,6 +374,10 @@ def write_replay(pid, kind, sres, line, theorem_or_stream, found):
     if sh_res:
         rep["shrunk_to_ops"] = sh_res[0]
         rep["args"] = list(sres["args"]) + ["-maxops", str(sh_res[0])]
+        if len(sh_res) > 2 and sh_res[2]:
+            rep["dropped_ops"] = sh_res[2]
+            rep["shrunk_to_ops"] = sh_res[0] - len(sh_res[2])
+            rep["args"] += ["-dropops", ",".join(map(str, sh_res[2]))]
         rep["ops"] = excerpt(sh_res[1], case)
     json.dump(rep, open(path, "w"), indent=1)
     return os.path.relpath(path, VERIF)
